@@ -53,7 +53,7 @@ def read_gsd_dcd_wrapper(file_name: str, ndim: int) -> Snapshots:
     logger.info("---------Start reading GSD & DCD file -----------")
     gsd_filename = file_name
     gsd_filepath = os.path.dirname(gsd_filename)
-    dcd_filename = gsd_filepath + "/" + os.path.basename(gsd_filename)[:-3] + "dcd"
+    dcd_filename = os.path.join(gsd_filepath, os.path.basename(gsd_filename)[:-3] + "dcd")
 
     try:
         import gsd, gsd.hoomd
